@@ -71,8 +71,13 @@ def run(ctx):
             if isinstance(n, ast.Assign) and isinstance(n.targets[0], ast.Name) and n.targets[0].id == "p_fac":
                 nrm = Nn(n.value)
         okn = nrm in (("call", "math.factorial", (("n", pname),), ()), ("sub", ("attr", ("n", "p_list"), "shape"), ("c", 0)), ("call", "builtins.len", (("n", "p_list"),), ()))
-        div = any((isinstance(n, ast.AugAssign) and isinstance(n.op, ast.Div) and unparse(n.value) == "p_fac") or
-                  (isinstance(n, ast.Assign) and isinstance(n.value, ast.BinOp) and isinstance(n.value.op, ast.Div) and unparse(n.value.right) == "p_fac") for n in walk_no_nested(f.node))
+        div = False
+        for n in walk_no_nested(f.node):
+            dv = n.value if (isinstance(n, ast.AugAssign) and isinstance(n.op, ast.Div)) else n.value.right if (isinstance(n, ast.Assign) and isinstance(n.value, ast.BinOp) and isinstance(n.value.op, ast.Div)) else None
+            if dv is not None:
+                tdv = Nn(dv)
+                if tdv == ("n", "p_fac") or tdv == nrm:
+                    div = True
         ctx.ob("R-ENUM", f, "average: divided by the number of permutations p!", bool(okn and div), "sum / p!" if okn and div else f"normaliser {show(nrm) if nrm else '?'}, divided: {div}")
         # dims passed: dim * ones(p)
         for c, cal in calls_from(m, f, "permutation_operator.permutation_operator"):
@@ -112,7 +117,8 @@ def run(ctx):
     Ns = Normalizer(m, sp, inline=False)
     gs = [Ns(flw.conds(ff)[-1][0]) for _, ff in flw.flow(sp.node).raises if flw.conds(ff)]
     ctx.ob("R-GUARD", sp, "dim >= 1 and p >= 1", ("cmp", "<", ("n", "dim"), ("c", 1)) in gs and ("cmp", "<", ("n", "p_val"), ("c", 1)) in gs, "two raising guards")
-    z = any(isinstance(n, ast.If) and unparse(n.test).replace(" ", "") == "dim<p_param" for n in walk_no_nested(ap.node))
+    Na = Normalizer(m, ap, inline=False)
+    z = any(isinstance(n, ast.If) and Na(n.test) == ("cmp", "<", ("n", "dim"), ("n", "p_param")) for n in walk_no_nested(ap.node))
     ctx.ob("R-GUARD", ap, "dim < p => zero projector", z, "the antisymmetric subspace is empty for dim < p" if z else "the empty-subspace case is gone")
     # perm_sign: det of the permutation matrix of the 1-based permutation
     rets, Np = return_terms(m, ps, inline=False)
@@ -123,24 +129,47 @@ def run(ctx):
     ctx.ob("R-BASE", ps, "sign == det(I[:, perm - 1]) (1-based permutation)", okp, "columns of the identity selected by perm - 1" if okp else "definition changed")
     # enumerators
     up = m.func("unique_perms.perm_unique_helper")
-    src = unparse(up.node)
-    bal = src.count("i.occurrences -= 1") == 1 and src.count("i.occurrences += 1") == 1
-    order_ok = False
+    from .. import pmatch
+    bal = order_ok = False
+    gd = None
     for n in walk_no_nested(up.node):
-        if isinstance(n, ast.For):
-            body = [unparse(s) for s in ast.walk(n) if isinstance(s, (ast.AugAssign, ast.Expr))]
-            txt = " ; ".join(body)
-            order_ok = txt.find("i.occurrences -= 1") < txt.find("yield from") < txt.find("i.occurrences += 1") and txt.find("i.occurrences -= 1") >= 0
+        if isinstance(n, ast.For) and isinstance(n.target, ast.Name):
+            it = n.target.id
+            seq = [s for s in ast.walk(n) if isinstance(s, (ast.AugAssign, ast.Expr))]
+            seq.sort(key=lambda s: (s.lineno, s.col_offset))
+            kinds = []
+            for s in seq:
+                if pmatch.match(f"{it}.occurrences -= 1", s) is not None or pmatch.match(f"{it}.occurrences = {it}.occurrences - 1", s) is not None:
+                    kinds.append("dec")
+                elif pmatch.match(f"{it}.occurrences += 1", s) is not None or pmatch.match(f"{it}.occurrences = {it}.occurrences + 1", s) is not None:
+                    kinds.append("inc")
+                elif isinstance(s, ast.Expr) and isinstance(s.value, ast.YieldFrom):
+                    kinds.append("rec")
+            bal = kinds.count("dec") == 1 and kinds.count("inc") == 1
+            order_ok = kinds == ["dec", "rec", "inc"]
+            guards = [g for g in ast.walk(n) if isinstance(g, ast.If)]
+            if guards:
+                t0 = guards[0].test
+                gd = True if (pmatch.match(f"{it}.occurrences > 0", t0) is not None or pmatch.match(f"{it}.occurrences >= 1", t0) is not None or pmatch.match(f"0 < {it}.occurrences", t0) is not None) \
+                    else False if (pmatch.match(f"{it}.occurrences >= 0", t0) is not None or pmatch.match(f"{it}.occurrences", t0) is None and "occurrences" in unparse(t0)) else None
+                if pmatch.match(f"{it}.occurrences", t0) is not None:
+                    gd = True  # truthiness of a non-negative counter
+            else:
+                gd = False
     ctx.ob("R-ENUM", up, "occurrence counter decremented before and restored after the recursive descent", bal and order_ok, "acquire / recurse / release" if bal and order_ok else "counter pairing broken: rearrangements are repeated or lost")
-    gd = any(isinstance(n, ast.If) and unparse(n.test).replace(" ", "") == "i.occurrences>0" for n in walk_no_nested(up.node))
-    ctx.ob("R-ENUM", up, "only values with remaining occurrences are placed", gd, "occurrences > 0" if gd else "guard missing")
+    ctx.ob("R-ENUM", up, "only values with remaining occurrences are placed", gd, "occurrences > 0" if gd else "guard missing or weakened" if gd is False else "guard not recognised", required=gd is not None)
     pm = m.func("perfect_matchings.perfect_matchings")
     Nm = Normalizer(m, pm, inline=False)
     lp = [n for n in walk_no_nested(pm.node) if isinstance(n, ast.For)]
     okm = bool(lp) and Nm(lp[0].iter) == ("call", "builtins.range", (("c", 1), ("n", "len_num")), ())
     ctx.ob("R-ENUM", pm, "first object paired with each of the others in turn", okm, "j in range(1, len_num)" if okm else "pairing loop changed")
     rec = [c for c, cal in calls_from(m, pm, "perfect_matchings.perfect_matchings")]
-    okr = bool(rec) and unparse(rec[0].args[0]) == "num[2:]"
+    okr = bool(rec) and bool(rec[0].args) and Nm(rec[0].args[0]) == ("sub", ("n", "num"), ("slice", ("c", 2), ("c", None), ("c", None)))
     ctx.ob("R-ENUM", pm, "recursion on the remaining n-2 objects", okr, "perfect_matchings(num[2:])" if okr else "recursion operand changed")
-    rep = any(isinstance(n, ast.Assign) and unparse(n).replace(" ", "") == "tlower_fac[tlower_fac==num[j]]=num[1]" for n in walk_no_nested(pm.node))
+    jv = lp[0].target.id if lp and isinstance(lp[0].target, ast.Name) else "j"
+    fr = pmatch.find(pm.node, [f"_T[_T == num[{jv}]] = num[1]", f"_T[num[{jv}] == _T] = num[1]"])
+    anyrep = pmatch.find(pm.node, ["_T[_T == _A] = _B", "_T[_A == _T] = _B"])
+    mask_store = any(isinstance(n, ast.Assign) and isinstance(n.targets[0], ast.Subscript) and isinstance(n.targets[0].slice, ast.Compare) for n in walk_no_nested(pm.node)) or \
+        any(isinstance(n, ast.Call) and getattr(n.func, "attr", "") in ("where", "place", "putmask", "copyto") for n in walk_no_nested(pm.node))
+    rep = True if fr else False if (anyrep or not mask_store) else None
     ctx.ob("R-ENUM", pm, "the partner j is replaced by object 1 in the sub-matchings", rep, "relabelling keeps each object exactly once" if rep else "relabelling changed")
